@@ -164,9 +164,35 @@ def tensor_key(t):
     return None if t is None else str(t.equivalence_id)
 
 
-def tag_replay(call, acc, counters):
+def root_name(t):
+    """name of the tensor whose bytes t shares by construction: the input of the chain of memory-only operators (RESHAPE, SQUEEZE, EXPAND_DIMS, ...) that
+    produces t inside the accelerated subgraph (those operators emit no command: producer and consumer address the same bytes under two names)"""
+    from ethosu.vela.graph_optimiser_util import memory_only_ops
+    from ethosu.vela.operation import Op
+
+    for _ in range(16):
+        ops = getattr(t, "ops", None) or []
+        # Memcpy: a memory-only operator on a graph input / output; when it is given the address of its input no command is emitted (when it is not, the copy
+        # is a DMA of this stream and the read finds its own tag)
+        if len(ops) != 1 or (ops[0].type not in memory_only_ops and ops[0].type != Op.Memcpy) or not ops[0].inputs or ops[0].inputs[0] is None:
+            break
+        t = ops[0].inputs[0]
+    return t.name
+
+
+def canonical_name(name):
+    """tensor name without the clone suffixes the CPU/NPU partitioning adds"""
+    name = str(name)
+    while name.endswith("_npu") or name.endswith("_cpu"):
+        name = name[:-4]
+    return name
+
+
+def tag_replay(call, acc, counters, sh=None, names=None, canon=None):
     """call: one StreamLog record (API ops, words, op -> high-level command).  Every read of a tensor must find bytes last written for that
     tensor (same equivalence id; for encoded weights also the same depth slice), or bytes not written inside this stream at all.
+    With a shadow handed in (sh, names: tags of the arena carried over from the graph inputs, the CPU operators and the earlier streams of the same
+    inference) a tag from outside the stream is accepted when it names the same tensor (equivalence id, or name up to the _npu/_cpu clone suffixes).
     -> findings (list of dict)"""
     from ethosu.vela.high_level_command_stream import DMA, NpuStripe
     from ethosu.vela.tensor import TensorPurpose
@@ -177,12 +203,14 @@ def tag_replay(call, acc, counters):
     if len(opev) != len(call["ops"]):
         counters["tag_streams_unpaired"] = counters.get("tag_streams_unpaired", 0) + 1
         return findings
-    sh = TagShadow()
-    names = {}
+    carried = sh is not None
+    sh = sh if carried else TagShadow()
+    names = names if names is not None else {}
+    canon = canon or canonical_name
 
     def nm(t):
         if t is not None:
-            names[tensor_key(t)] = t.name
+            names[tensor_key(t)] = root_name(t) if carried else t.name
         return tensor_key(t)
 
     for ev, apiop in zip(opev, call["ops"]):
@@ -221,7 +249,13 @@ def tag_replay(call, acc, counters):
             counters["tagged_reads_checked"] = counters.get("tagged_reads_checked", 0) + 1
 
             def accept(key, want=want, sub=sub):
-                return key[0] == want and (sub in (None, "any") or key[1] is None or key[1] == sub)
+                if key[0] == want:
+                    return sub in (None, "any") or key[1] is None or key[1] == sub
+                if carried:
+                    # written outside this stream: by a CPU operator / as a graph input (key ('ext', name)) or by an earlier stream (another clone of the tensor)
+                    other = key[1] if key[0] == "ext" else names.get(key[0])
+                    return other is not None and canon(other) == canon(names.get(want, ""))
+                return False
 
             bad = sh.foreign(region, iv, accept)
             if any(True for _ in bad):
@@ -240,4 +274,71 @@ def tag_replay(call, acc, counters):
                 counters["tagged_weight_slices"] = counters.get("tagged_weight_slices", 0) + 1
         counters["tag_ops_replayed"] = counters.get("tag_ops_replayed", 0) + 1
     counters["tag_streams"] = counters.get("tag_streams", 0) + 1
+    return findings
+
+
+def tag_replay_model(calls, art, acc, counters):
+    """monitor 2 across the whole inference: one arena shadow carried through the operators of the output model in execution order.  Graph inputs and the
+    outputs of CPU operators tag their arena extents by name (a memory-only CPU operator whose output lies exactly on its input keeps the input's tags and
+    becomes an alias), every Ethos-U operator replays its stream over the carried shadow (its fast-scratch tags are dropped afterwards).
+    -> findings"""
+    sg, offs = art.sg, art.offsets
+    if offs is None:
+        return []
+    by_words = {}
+    for c in calls:
+        by_words.setdefault(tuple(int(w) for w in c["words"][:64]) + (len(c["words"]),), []).append(c)
+    sh = TagShadow()
+    names = {}
+    alias = {}
+
+    def canon(n):
+        n = canonical_name(n)
+        seen = set()
+        while n in alias and n not in seen:
+            seen.add(n)
+            n = alias[n]
+        return n
+
+    def tag_ext(ti):
+        if ti < 0 or offs[ti] < 0:
+            return
+        T = sg.tensors[ti]
+        size = art.tensor_bytes(ti)
+        if size <= 0:
+            return
+        key = ("ext", canon(T.name))
+        sh.write(1, np.array([[offs[ti], offs[ti] + size]], dtype=np.int64), key)
+
+    for ti in sg.inputs:
+        tag_ext(ti)
+    npu_by_index = {n.op_index: n for n in art.npu_ops}
+    findings = []
+    for k, op in enumerate(sg.ops):
+        if k in npu_by_index:
+            n = npu_by_index[k]
+            if n.frame_error is not None:
+                return findings
+            cands = by_words.get(tuple(int(w) for w in n.words[:64]) + (len(n.words),), [])
+            call = next((c for c in cands if list(c["words"]) == list(n.words)), None)
+            if call is None:
+                counters["tag_model_streams_unmatched"] = counters.get("tag_model_streams_unmatched", 0) + 1
+                return findings
+            found = tag_replay(call, acc, counters, sh=sh, names=names, canon=canon)
+            for f in found:
+                f["cross_stream"] = True
+            findings += found
+            sh.arr.pop(2, None)
+            counters["tag_model_streams"] = counters.get("tag_model_streams", 0) + 1
+        else:
+            ins = [ti for ti in op.inputs if ti >= 0 and offs[ti] >= 0]
+            for to in op.outputs:
+                if to < 0 or offs[to] < 0:
+                    continue
+                same = [ti for ti in ins if offs[ti] == offs[to] and art.tensor_bytes(ti) == art.tensor_bytes(to)]
+                if same:
+                    alias[canonical_name(sg.tensors[to].name)] = canon(sg.tensors[same[0]].name)  # memory-only operator: same bytes, two names
+                    continue
+                tag_ext(to)
+            counters["tag_model_cpu_ops"] = counters.get("tag_model_cpu_ops", 0) + 1
     return findings
